@@ -98,15 +98,34 @@ def main():
             return 3
 
     patch = os.path.join(dst, "patch.diff")
-    rc, o = sh(f"git apply {patch}", cwd="/repo")
-    if rc != 0:
-        print("cannot apply to /repo:\n" + o)
-        return 3
+    use_copy = "--in-repo" not in flags
+    env_extra = {}
+    if use_copy:
+        # run against a private copy of /repo (VERIF_REPO) so that /repo itself is never touched and
+        # several seeded changes can be tried in parallel
+        copy = f"/dev/shm/seedrepo-{sid}-{os.getpid()}"
+        shutil.rmtree(copy, ignore_errors=True)
+        sh(f"git worktree add --detach {copy} HEAD", cwd="/repo")
+        rc, o = sh(f"git apply {patch}", cwd=copy)
+        if rc != 0:
+            print("cannot apply to the copy:\n" + o)
+            sh(f"git worktree remove --force {copy}", cwd="/repo")
+            return 3
+        env_extra = {"VERIF_REPO": copy}
+    else:
+        rc, o = sh(f"git apply {patch}", cwd="/repo")
+        if rc != 0:
+            print("cannot apply to /repo:\n" + o)
+            return 3
     results = meta.setdefault("checks", {})
+    saved_ev = {}
+    for pid in pids:
+        ev = os.path.join(VERIF, "evidence", f"{pid}.json")
+        saved_ev[ev] = open(ev).read() if os.path.exists(ev) else None
     try:
         for pid in pids:
             t0 = time.time()
-            rc, o = sh(f"./check {pid} --tier {tier}", cwd=VERIF, timeout=7200)
+            rc, o = sh(f"./check {pid} --tier {tier}", cwd=VERIF, timeout=7200, env=env_extra)
             viol = [l for l in o.splitlines() if l.startswith("VIOLATION")]
             keys = [l.strip() for l in o.splitlines() if l.startswith("  key=")]
             results[f"{pid}:{tier}"] = {"exit": rc, "detected": rc == 1 and bool(viol), "violations": viol[:5], "keys": keys[:8],
@@ -115,10 +134,21 @@ def main():
             if rc not in (0, 1):
                 print(o[-3000:])
     finally:
-        sh("git checkout -- .", cwd="/repo")
-        rc, out = sh("git status --porcelain", cwd="/repo")
-        if out.strip():
-            print("WARNING: /repo still dirty:\n" + out)
+        # evidence written while the change was applied describes the changed tree: put the old files back
+        for ev, content in saved_ev.items():
+            if content is None:
+                if os.path.exists(ev):
+                    os.remove(ev)
+            else:
+                open(ev, "w").write(content)
+        if use_copy:
+            sh(f"git worktree remove --force {copy}", cwd="/repo")
+            shutil.rmtree(copy, ignore_errors=True)
+        else:
+            sh("git checkout -- .", cwd="/repo")
+            rc, out = sh("git status --porcelain", cwd="/repo")
+            if out.strip():
+                print("WARNING: /repo still dirty:\n" + out)
     json.dump(meta, open(meta_path, "w"), indent=1)
     # evidence files were rewritten by the run on the mutated tree: do not keep them
     return 0
